@@ -342,3 +342,5 @@ func (p *prng) perm(n int) []int {
 	}
 	return a
 }
+
+func jsonMarshal(v any) ([]byte, error) { return json.Marshal(v) }
